@@ -1308,6 +1308,28 @@ def h_extend(I, st, a, t, b):
     return ()
 
 
+def h_vec_new(I, st, a, t, b):
+    return ()
+
+
+def h_vec_push(I, st, a, t, b):
+    cur = _deref_arg(I, st, a[0])
+    if not isinstance(cur, (tuple, list)):
+        raise Unsupported('push onto %r' % (cur,))
+    I._write_ref(st, a[0], tuple(cur) + (a[1],))
+    return ()
+
+
+def h_vec_index(I, st, a, t, b):
+    seq = _deref_arg(I, st, a[0])
+    k = a[1]
+    if isinstance(seq, (tuple, list)) and isinstance(k, int) and not isinstance(k, bool):
+        if 0 <= k < len(seq):
+            return ('refval', seq[k], ())
+        raise Undecided('index %d out of bounds (len %d)' % (k, len(seq)))
+    return h_index_range(I, st, a, t, b)
+
+
 def h_range_inclusive(I, st, a, t, b):
     lo, hi = a[0], a[1]
     if isinstance(lo, int) and isinstance(hi, int):
@@ -1442,5 +1464,5 @@ BUILTINS.update({
     'Iterator::zip': h_zip, 'Iterator::map': h_iter_map, 'Iterator::all': h_iter_all, 'Iterator::any': h_iter_any,
     'Iterator::find': h_iter_find, 'Iterator::collect': h_iter_collect, 'Iterator::copied': h_iter_copied, 'Iterator::cloned': h_iter_copied,
     'array::map': h_array_map, 'array::from_fn': h_array_from_fn, 'RangeInclusive::new': h_range_inclusive, 'PartialOrd::partial_cmp': h_partial_cmp,
-    'Index::index': h_index_range, 'slice::iter_mut': h_iter_mut, 'Vec::iter_mut': h_iter_mut, 'Iterator::filter': h_iter_filter, 'Iterator::filter_map': h_iter_filter_map, 'Extend::extend': h_extend, 'Vec::extend': h_extend,
+    'Index::index': h_vec_index, 'Vec::new': h_vec_new, 'Vec::with_capacity': h_vec_new, 'Vec::push': h_vec_push, 'slice::iter_mut': h_iter_mut, 'Vec::iter_mut': h_iter_mut, 'Iterator::filter': h_iter_filter, 'Iterator::filter_map': h_iter_filter_map, 'Extend::extend': h_extend, 'Vec::extend': h_extend,
 })
